@@ -53,6 +53,7 @@ type c14Params struct {
 	Follow  int    `json:"follow,omitempty"` // harness C: data size of the request the new client sends right behind its login (0: a user-list request)
 	Joined  bool   `json:"joined,omitempty"` // harness C: login and follow-up request arrive in one segment
 	Board   int    `json:"board,omitempty"`  // harness B: size of the message board in 16-byte units (0: 2560 = 40 KiB)
+	Fields  int    `json:"fields,omitempty"` // harness A: the first transaction additionally carries this many one-byte fields
 }
 
 // c14Answered[kind] = the request kind gets a reply when issued alone (measured by a baseline
@@ -107,9 +108,18 @@ func c14A(p c14Params) (out explore.SchedOutcome) {
 		ref ref.Tx
 	}
 	var q1, q2 []queued
+	oversized := false
 	for i, sz := range p.Sizes {
 		data := pattern(sz, byte(i+1))
 		t := hotline.NewTransaction(hotline.TranServerMsg, cc1.ID, hotline.NewField(hotline.FieldData, data), hotline.NewField(hotline.FieldChatOptions, []byte{0, byte(i)}))
+		if i == 0 {
+			for k := 0; k < p.Fields; k++ {
+				t.Fields = append(t.Fields, hotline.NewField(hotline.FieldUserName, []byte{'x'}))
+			}
+		}
+		if sz > 65535 || p.Fields > 0 {
+			oversized = true // what a handler built does not fit the 16-bit prefixes: only the framing is judged
+		}
 		q1 = append(q1, queued{t, ref.Tx{Type: ref.TServerMsg, Fields: []ref.Fld{ref.F(ref.FData, data), ref.F(ref.FChatOptions, []byte{0, byte(i)})}}})
 	}
 	{
@@ -139,7 +149,7 @@ func c14A(p c14Params) (out explore.SchedOutcome) {
 				Signature: "C14/A/framing/stream-not-a-concatenation-of-whole-transactions",
 				Detail:    fmt.Sprintf("%s params=%s: byte stream does not re-frame: err=%v trailing=%d; chunk sizes=%v", name, p, err, len(rest), chunkSizes(conn)),
 			})
-		} else if got != strings.Join(wantC, "\n") {
+		} else if got != strings.Join(wantC, "\n") && !(oversized && name == "client1") {
 			out.Violations = append(out.Violations, explore.SchedV{
 				Signature: "C14/A/framing/transactions-differ-from-queued",
 				Detail:    fmt.Sprintf("%s params=%s: received\n%s\nqueued\n%s", name, p, got, strings.Join(wantC, "\n")),
@@ -414,6 +424,8 @@ func runC14(w *explore.Worker) {
 		jobs = append(jobs, job{c14Params{Harness: "A", Sizes: pr}, boundA})
 	}
 	jobs = append(jobs, job{c14Params{Harness: "A", Sizes: []int{65535, 300, 22}}, boundA - 1})
+	// what handlers can be made to build: a field of more than 65,535 bytes, more than 65,535 fields
+	jobs = append(jobs, job{c14Params{Harness: "A", Sizes: []int{65536, 22}}, 0}, job{c14Params{Harness: "A", Sizes: []int{70000, 300}}, 0}, job{c14Params{Harness: "A", Sizes: []int{5, 22}, Fields: 65536}, 0})
 	// harness B: two clients x two requests
 	bp := [][]int{{c14GetMsgs, c14Chat, c14Chat, c14UserList}, {c14PM, c14KeepAlive, c14GetMsgs, c14PM}, {c14Chat, c14GetMsgs, c14KeepAlive, c14Chat}}
 	if w.Thorough {
